@@ -153,6 +153,71 @@ def check_text(text):
     return None
 
 
+# --- classification per doc/language-reference.md ("Names", "Numeric Constant Formats"): the rules are PINNED here from the
+# property statement / reference text (not read from doc/grammar.md, which is regenerated from the tokenizer's own tables);
+# the anchors below check that the reference still states them.
+REF_ANCHORS = ["`[A-Z][a-zA-Z0-9]*[a-z][a-zA-Z0-9]*`", "`[a-z][a-z_0-9]*`", "`[A-Z][A-Z_0-9]*[A-Z_][A-Z_0-9]*`", "Decimal numbers may use `_` as a thousands separator",
+               "Hexadecimal and binary numbers may use `_` as a separator every 4 or 8 digits", "1000_000              # Not allowed", "1_000_00              # Not allowed",
+               "0x1234_567            # Not allowed", "0x1234_5678_9abcdef0  # Not allowed", "0XC is not allowed", "NOT interpreted as octal"]
+REF_NUMBER = [re.compile(p + r"\Z") for p in (r"[0-9]+", r"[0-9]{1,3}(_[0-9]{3})+", r"0x[0-9a-fA-F]+", r"0x[0-9a-fA-F]{1,4}(_[0-9a-fA-F]{4})+", r"0x[0-9a-fA-F]{1,8}(_[0-9a-fA-F]{8})+",
+                                                 r"0b[01]+", r"0b[01]{1,4}(_[01]{4})+", r"0b[01]{1,8}(_[01]{8})+")]
+REF_NAMES = [("SnakeWord", re.compile(r"[a-z][a-z_0-9]*\Z")), ("ShoutyWord", re.compile(r"[A-Z][A-Z_0-9]*[A-Z_][A-Z_0-9]*\Z")), ("CamelWord", re.compile(r"[A-Z][a-zA-Z0-9]*[a-z][a-zA-Z0-9]*\Z"))]
+
+
+def reference_class(s):
+    """Number / SnakeWord / ShoutyWord / CamelWord / BooleanConstant per the language reference, None if the reference
+    does not make s a valid name or numeric constant, "unspecified" where it is silent (separator right after 0x / 0b)."""
+    if re.match(r"0[xb]_", s):
+        return "unspecified"
+    if s in ("true", "false"):
+        return "BooleanConstant"
+    if any(r.match(s) for r in REF_NUMBER):
+        return "Number"
+    for sym, r in REF_NAMES:
+        if r.match(s):
+            return sym
+    return None
+
+
+def classification_texts(tier):
+    out = set()
+    for prefix, digit in (("", "1"), ("", "9"), ("0x", "a"), ("0x", "F"), ("0x", "7"), ("0b", "1"), ("0b", "0"), ("0X", "a"), ("0B", "1"), ("0", "7")):
+        for ngroups in (1, 2, 3, 4):
+            for lens in itertools.product((1, 2, 3, 4, 5, 8, 9) if ngroups < 4 else (1, 3, 4, 8), repeat=ngroups):
+                out.add(prefix + "_".join(digit * n for n in lens))
+    for n in range(1, 5 if tier == "quick" else 6):
+        for t in itertools.product("019_xbXBafFzZ", repeat=n):
+            out.add("".join(t))
+    return sorted(out)
+
+
+def check_classification(s):
+    tokenizer = importlib.import_module("compiler.front_end.tokenizer")
+    if s in tokenizer.LITERAL_TOKEN_PATTERNS or re.match(r"(?i)emboss_?reserved", s):
+        return None
+    want = reference_class(s)
+    if want == "unspecified":
+        return None
+    toks, errs = tokenizer.tokenize(s, "f.emb")
+    got = None if errs else [(t.symbol, t.text) for t in toks if t.symbol != '"\\n"']
+    valid = ("Number", "SnakeWord", "ShoutyWord", "CamelWord", "BooleanConstant")
+    if want is not None:
+        if got != [(want, s)]:
+            return "%r is a %s per the language reference, tokenized as %r" % (s, want, got)
+    else:
+        if got is not None and all(sym in valid or sym.startswith('"') for sym, _ in got):
+            return "%r is neither a valid name nor a valid numeric constant per the language reference, but tokenized as %r" % (s, got)
+    return None
+
+
+def _class_chunk(texts):
+    for t in texts:
+        w = check_classification(t)
+        if w is not None:
+            return {"text": t, "why": w}, 0
+    return None, len(texts)
+
+
 def _chunk(texts):
     bad = None
     n_tok = 0
@@ -183,16 +248,26 @@ def main(args):
     from vlib import pool
     from contracts import tokenizer as ctok
     n0 = len(run.obligations)
-    pool.run_targets(run, "contracts.tokenizer", ["line_loop"])
+    pool.run_targets(run, "contracts.tokenizer", ["line_loop", "indent_loop", "final_dedents"])
+    rp = None
     for ob in run.obligations[n0:]:
-        if ob.verdict == core.REFUTED:
+        if ob.verdict == core.REFUTED and ob.name.startswith("_tokenize_line"):
             ob.replay = ctok.replay_line_loop(ob.name, ob.model)
+        elif ob.verdict == core.REFUTED:
+            rp = rp or ctok.replay_tokenize(ob.name, ob.model)
+            ob.replay = rp
+    run.function("compiler.front_end.tokenizer.tokenize",
+                 "pyvc: the body of its per-line loop executed symbolically from any (line, leading whitespace, open indentation chain of depth <= 4, outcome of _tokenize_line): same / deeper (one Indent, the new part of the "
+                 "whitespace) / shallower (one empty Dedent per closed level) / Bad indentation iff no open level matches or extends; newline token at the end of the line; blank and comment-only lines leave the "
+                 "indentation alone; the chain-of-strict-prefixes and balance invariants are re-established; the statements after the loop emit one Dedent per level still open")
     run.function("compiler.front_end.tokenizer._tokenize_line",
                  "pyvc: the body of its `while offset < len(line)` loop executed symbolically from any (line length, offset, line number) over abstract literal / regex tables: "
                  "longest match, ties to the earliest pattern, error iff nothing matches, token symbol/text/location, offset advances by the match length")
     run.assume(*core.STANDING_ASSUMPTIONS["E1"])
     run.assume("_tokenize_line: `str.startswith` and `re.match` are uninterpreted (a match is a boolean plus a length within the rest of the line); tables of <= 3 literals and <= 3 regexes stand for the "
-               "module's tables (the loop treats every entry alike); the induction from one iteration to the whole line, and tokenize()'s line splitting and Indent/Dedent logic, are covered by the bounded part only")
+               "module's tables (the loop treats every entry alike); the induction from one iteration to the whole line is a paper step (the offset strictly increases and stays inside the line)",
+               "tokenize: comparisons of the leading whitespace with open levels are uninterpreted booleans constrained by length facts true of all strings; indentation chains of depth <= 4 stand for all depths (the loop "
+               "treats levels alike); str.splitlines / str.lstrip are trusted (which characters count as line terminators / whitespace is covered by the bounded part only)")
     groups = {}
     short = ["".join(t) for n in range(0, 4) for t in itertools.product(ALPHABET, repeat=n)]
     groups["all-strings<=3"] = short
@@ -241,6 +316,19 @@ def main(args):
             distinct += len(set(texts))
             run.add(core.Obligation("bounded.tokenizer==documented-table+invariants[%s]" % g, core.BPASS if bad is None else core.BFAIL, "cpython", 0.0, kind="bounded",
                                     model=bad, detail="%d texts" % len(texts), replay=None if bad is None else {"reproduced": True, "inputs": bad}))
+    # names and numbers classified as the language reference says (pinned rules; anchors checked against the reference text)
+    ref = open(os.path.join(core.REPO, "doc", "language-reference.md")).read()
+    missing = [a for a in REF_ANCHORS if a not in ref]
+    if missing:
+        run.error("anchor mismatch: doc/language-reference.md no longer states %r; the pinned name / numeric-constant rules of props/C10.py need review" % missing[:3])
+    ctexts = classification_texts(args.tier)
+    with multiprocessing.get_context("fork").Pool(16) as pool:
+        res = pool.map(_class_chunk, [ctexts[i:i + 500] for i in range(0, len(ctexts), 500)])
+    bad = next((b for (b, _) in res if b), None)
+    run.add(core.Obligation("bounded.classification==language-reference[names-and-numeric-constants]", core.BPASS if bad is None else core.BFAIL, "cpython", 0.0, kind="bounded",
+                            model=bad, detail="%d word-like strings" % len(ctexts), replay=None if bad is None else {"reproduced": True, "inputs": bad}))
+    total += len(ctexts)
+    distinct += len(ctexts)
     run.bounded.append({"what": "independent tokenizer from doc/grammar.md vs tokenizer.tokenize + covering/position/newline/indent invariants",
                         "evaluations": total, "distinct_nontrivial": distinct, "seconds": round(time.time() - t0, 1)})
     run.extra["rule"] = "texts: all strings of length <=3 over a %d-character alphabet, length 4 %s, seeded token soup, corpus files and their mutations; distinct = distinct texts" % (
@@ -248,6 +336,6 @@ def main(args):
     run.extra["alphabet"] = ALPHABET
     run.function("compiler.front_end.tokenizer.tokenize / _tokenize_line", "contract with an independent documented-table tokenizer and covering invariants, checked on enumerated texts (bounded stand-in)")
     run.assume(*core.STANDING_ASSUMPTIONS["E3"])
-    run.assume("Python's re module is trusted on both sides", "name and numeric-constant classification is compared through the documented pattern table only")
+    run.assume("Python's re module is trusted on both sides", "name and numeric-constant classification: the rules of doc/language-reference.md are pinned in props/C10.py (anchored to the reference text); a separator directly after 0x / 0b is left unspecified by the reference and not judged")
     run.trust("CPython re", "doc/grammar.md as the documented table")
     return run.finish()
